@@ -160,13 +160,10 @@ def validate(rep, exe, plans, prop, judge=True, expand=True, excuse=None):
         nkeys = int(v[2])
         rep.count("shape:families")
         problems = []
+        if has_eparam(g["gid"]):
+            rep.count("shape:families-with-const-parameter-header")
         if not keys_over_header:
-            if has_eparam(g["gid"]):
-                # the semantic model of DESIGN §6 has type parameters only: for a header with a const parameter the refinement
-                # theorem is not applicable (a limit of the model, recorded in the evidence), the differential checks still are
-                rep.count("shape:refinement-not-applicable(const parameter in header)")
-            else:
-                problems.append("KeysOverHeader fails")
+            problems.append("KeysOverHeader fails")
         thetas = []
         for mi, mv in enumerate(v[3]):
             member_ok, theta_covers, sized_compat = mv[0] == "1", mv[1] == "1", mv[2] == "1"
